@@ -42,7 +42,11 @@ type item struct {
 
 var texts = []string{"caf\xe9 latin-1 byte", "hello", `it's "quoted" text`, `back\slash \n not-a-newline`, "ünï©ødé 日本 ✓", "tab\there", "a &amp; b &lt; c", "ctl\x01byte", "nbsp end", "percent %d %s", "line one\n\t\tline two", "`backtick`", "trailing space ", "x", "$dollar #hash @at", "emoji 😀"}
 var statVals = []string{"v", "two words", "it's", "a&amp;b", "ünï", `back\slash`, "", "100%"}
-var strExprs = []string{"x", "y", `x + "!"`, "x + y", `"lit"`}
+
+// The first two are plain variables (script positions use only those). Several of the others
+// differ from each other only in white space - inside a string constant, where it is content,
+// or between tokens, where it is not.
+var strExprs = []string{"x", "y", `x + "!"`, "x + y", `"lit"`, `"EUR  "`, `"EUR "`, `x + "  !"`, `x + " !"`, "x+y", "`two\n  lines`", "`two\n\tlines`", `x +  y`}
 var attrNames = []string{"title", "data-a", "data-b", "class", "style", "id", "alt"}
 var tags = []string{"div", "span", "p", "section", "b"}
 var jsStatics = []string{"var a = ", "console.log(", "let s = 'single'; var b = ", "/* c */ var d = "}
@@ -57,6 +61,14 @@ var bigTexts = []string{
 	strings.Repeat("Grüße aus Köln, où l'été est très doux. ", 220),
 	"ab" + strings.Repeat("emoji 😀 und 🎉 ", 300),
 	strings.Repeat("a", 4095) + "é" + strings.Repeat("b", 4095) + "日" + strings.Repeat("c", 100),
+}
+
+// exprTwins maps an expression to one that differs from it in white space only.
+var exprTwins = map[string]string{
+	`"EUR  "`: `"EUR "`, `"EUR "`: `"EUR  "`,
+	`x + "  !"`: `x + " !"`, `x + " !"`: `x + "  !"`,
+	"x + y": "x+y", "x+y": "x +  y", "x +  y": "x + y",
+	"`two\n  lines`": "`two\n\tlines`", "`two\n\tlines`": "`two\n  lines`",
 }
 
 type gen struct{ r *rand.Rand }
@@ -378,6 +390,10 @@ func (g *gen) edit(items []item) ([]item, string) {
 		case 9: // change a Go expression
 			if it.K == "expr" {
 				old := it.Expr
+				if tw, ok := exprTwins[old]; ok && g.r.IntN(2) == 0 {
+					it.Expr = tw // the same expression but for white space
+					return out, "expr-whitespace-change"
+				}
 				it.Expr = g.pick(strExprs)
 				if it.Expr != old {
 					return out, "expr-change"
